@@ -9,11 +9,12 @@ base = json.load(open("/root/.vp/BASELINE.json"))
 # id -> (category, technique, text, note, design_ref)
 CHECKS = {
     "C01": ("translation_validation",
-            "Lean 4: proven-sound certificate checker (simulation between model graph and real TEAL) + universal codegen-correctness theorem; differential execution as failing-input search",
+            "Lean 4: end-to-end theorem compile_correct_original (source semantics of the ORIGINAL tree vs the REAL TEAL under decidable hypotheses evaluated per program) = proven-sound certificate checker (simulation between model graph and real TEAL) + universal codegen-correctness theorem gen_correct + renaming invariance; differential execution as failing-input search",
             "Every explored program: the real compiler's TEAL is parsed by an independent grammar and a simulation certificate against the "
             "Lean code-generation model is checked by `Check.closed` (soundness theorem: equal outcomes on ALL contexts); the model itself is "
             "proved correct w.r.t. the source semantics for all trees of the fragment. Proof-strength over inputs and paths, "
-            "validation-strength over programs; the real TEAL is additionally executed against the source semantics.",
+            "validation-strength over programs; the real TEAL is additionally executed against the source semantics. The variable renaming the "
+            "validator discovers is covered by Proofs/Rename.lean (renameOk, evaluated per program).",
             "Trusted: Lean kernel, AVM spec (Avm/*.lean), source semantics (Src.lean), recipe builders; subroutines are covered by C02, options by C03.",
             "DESIGN.md Part II C01"),
     "C02": ("translation_validation",
@@ -27,14 +28,14 @@ CHECKS = {
             "program (renaming invariance Proofs/Rename.lean under the decidable renameOk, evaluated per program).",
             "DESIGN.md Part II C02"),
     "C03": ("proof",
-            "Lean 4 proof (partial, labelled): slot_to_stack_sound_partial / optimizer_only_removes / execPrim_frame on a model of the scratch-slot optimiser (Iterate order, candidate scan, dependency scan, removal) against the block-graph machine; optimizer_counterexample proves the unrestricted statement false (known finding); the model is compared with the real apply_global_optimizations on generated block graphs; version and frame-pointer settings are decided by option-pair differential execution of the real TEAL texts incl. stack at every routine exit",
+            "Lean 4 proof (partial, labelled): slot_to_stack_sound_partial / optimizer_only_removes / execPrim_frame on a model of the scratch-slot optimiser (Iterate order, candidate scan, dependency scan, removal) against the block-graph machine; optimizer_counterexample proves the unrestricted statement false (known finding); the model is compared with the real apply_global_optimizations on generated block graphs; C03Options.options_independent / options_agree: version and frame-pointer settings of one program agree whenever both are inside the composed end-to-end theorems (hypotheses evaluated per program, optimiser off); every setting pair is also decided by differential execution of the real TEAL texts incl. the stack at every routine exit",
             "Optimiser: for every routine graph, context, fuel and start state, when every access to a cancelled slot belongs to an adjacent "
             "store/load pair (decidable; what the pass establishes except for the known finding) the optimised routine has the same halt, verdict, "
             "effects, remaining slots and stack. Tie: the real pass is run on generated graphs of real TealBlock objects and compared op for op with "
             "the model; every graph is also executed before/after. Version / frame-pointer settings: one program, every setting under which it "
             "compiles, executed on the same contexts (verdict, return value, effects, user-numbered slots, stack at routine exits for twins).",
             "Trusted: Lean kernel, AVM spec, block-graph machine, harness encoding of real graphs. The optimiser theorem is partial (hypothesis "
-            "pairsOnly; underflow clause); equivalence across versions and across frame_pointers is exploration, not a theorem. One known finding "
+            "pairsOnly; underflow clause); equivalence across versions and across frame_pointers is a theorem for programs inside the composed fragments with the optimiser off, exploration otherwise. One known finding "
             "(dead stores deleted by the optimiser leave their value on the stack; pinned by the repository's own optimizer_test).",
             "DESIGN.md Part II C03"),
     "C15": ("proof",
